@@ -7,6 +7,7 @@
 //   ops: R<i>  I<i>:<u64>  A<i>:<u64>  S<i>:<f>  P<i>:<f>  M<i>:<f>  X<i>:<bits hex>  H<i>:<f>
 //        D<c|g|h>:<name>:<unit|->:<text>   U   N
 //   T <threads> <per_thread> <nkeys> <hist 0|1> <rounds>     free-running stress (see stress())
+//   V <nkeys> <per_round> <rounds> <hist 0|1> <renderers>    visibility stress (see visibility())
 // stdout, one line per case:
 //   C: renderings joined by '|'; a rendering = '@' + samples joined by ';' (or "E<hex msg>" if unreadable);
 //      sample = fam,type,help,name,labels,extra,value
@@ -14,6 +15,7 @@
 //        extra: n | i (+Inf) | l<f64 bits hex> | q<f64 bits hex>;
 //        value: u<u64> | f<f64 bits hex as parsed back by str::parse::<f64>> | x (quantile value)
 //   T: recorded=<n per key,..> counts=<..> ctr_expected=<..> ctr=<..> renders=<n> nonmonotone=<n> over=<n>
+//   V: rounds=<n> renders=<n> short=<n> over=<n> settled_bad=<n> first=<round:key:expected:count:sum bits|->
 //   P<hex of panic message> if the case panicked.
 use metrics::{Key, KeyName, Label, Recorder, Unit};
 use metrics_exporter_prometheus::{Matcher, PrometheusBuilder, PrometheusHandle, PrometheusRecorder};
@@ -341,6 +343,75 @@ fn stress(line: &str) -> String {
     format!("recorded={} counts={} ctr={} renders={} nonmonotone={} over={}", j(&recorded), j(&counts), j(&ctrs), renders, nonmonotone, over)
 }
 
+// ------------------------------------------------------------------ visibility stress
+// Each round the calling thread records `per_round` samples (value 1.0, round-robin over `nkeys`
+// histogram keys); every record() has RETURNED.  Then a barrier releases one run_upkeep() thread and
+// `renderers` render() threads together.  No recorder runs concurrently, so each of those renderings
+// must show the full cumulative _count and _sum of every key (whichever thread took the samples out
+// of the bucket), and so must the settled rendering after the threads joined.
+fn fvalue_of(text: &str, name: &str) -> Option<f64> {
+    for l in text.lines() {
+        if let Some(r) = l.strip_prefix(name) {
+            if let Some(v) = r.strip_prefix(' ') { return v.parse::<f64>().ok(); }
+        }
+    }
+    None
+}
+
+fn visibility(line: &str) -> String {
+    let mut t = Toks { it: line.split_whitespace() };
+    assert_eq!(t.s(), "V");
+    let nkeys = t.n();
+    let per_round = t.n();
+    let rounds = t.n();
+    let hist = t.n() == 1;
+    let renderers = t.n();
+    let mut b = PrometheusBuilder::new();
+    if hist { b = b.set_buckets(&[0.5, 2.0]).unwrap(); }
+    let rec = b.build_recorder();
+    let handle = rec.handle();
+    let hk: Vec<_> = (0..nkeys).map(|k| rec.register_histogram(&Key::from_parts(format!("v{}", k), vec![Label::new("route", "a")]), &METADATA)).collect();
+    let mut recorded = vec![0u64; nkeys];
+    let (mut renders, mut short, mut over, mut settled_bad) = (0u64, 0u64, 0u64, 0u64);
+    let mut first = String::from("-");
+    for round in 0..rounds {
+        for j in 0..per_round {
+            let k = j % nkeys;
+            hk[k].record(1.0);
+            recorded[k] += 1;
+        }
+        let barrier = std::sync::Barrier::new(1 + renderers);
+        let texts: Vec<String> = std::thread::scope(|s| {
+            let (handle, barrier) = (&handle, &barrier);
+            let up = s.spawn(move || { barrier.wait(); handle.run_upkeep(); });
+            let rs: Vec<_> = (0..renderers).map(|r| s.spawn(move || {
+                barrier.wait();
+                // vary who gets to the buckets first; every order is legal
+                let spins = match (round + r) % 4 { 0 => 0, 1 => 500, 2 => 2_000, _ => 8_000 };
+                for _ in 0..spins { std::hint::spin_loop(); }
+                handle.render()
+            })).collect();
+            up.join().unwrap();
+            rs.into_iter().map(|h| h.join().unwrap()).collect()
+        });
+        let mut judge = |text: &str, settled: bool| {
+            for k in 0..nkeys {
+                let c = count_of(text, &format!("v{}_count{{route=\"a\"}}", k)).unwrap_or(0);
+                let sm = fvalue_of(text, &format!("v{}_sum{{route=\"a\"}}", k)).unwrap_or(0.0);
+                let bad = c != recorded[k] || sm != recorded[k] as f64;
+                if bad {
+                    if settled { settled_bad += 1; } else if c > recorded[k] { over += 1; } else { short += 1; }
+                    if first == "-" { first = format!("{}:{}:{}:{}:{:016x}{}", round, k, recorded[k], c, sm.to_bits(), if settled { ":settled" } else { "" }); }
+                }
+            }
+        };
+        for text in &texts { renders += 1; judge(text, false); }
+        let settled = handle.render();
+        judge(&settled, true);
+    }
+    format!("rounds={} renders={} short={} over={} settled_bad={} first={}", rounds, renders, short, over, settled_bad, first)
+}
+
 fn main() {
     std::panic::set_hook(Box::new(|_| {}));
     let stdin = std::io::stdin();
@@ -349,7 +420,7 @@ fn main() {
     for line in stdin.lock().lines() {
         let line = line.unwrap();
         if line.trim().is_empty() { continue; }
-        let r = std::panic::catch_unwind(|| if line.starts_with('T') { stress(&line) } else { run_case(&line) });
+        let r = std::panic::catch_unwind(|| if line.starts_with('T') { stress(&line) } else if line.starts_with('V') { visibility(&line) } else { run_case(&line) });
         match r {
             Ok(s) => writeln!(w, "{}", s).unwrap(),
             Err(e) => {
